@@ -40,6 +40,13 @@ V_ENTRY(h_dnf_eval, int l1; int l2; int l3; int o1; int o2; int n1; int n2; unsi
 	fy = (in->o1 & 1) ? (lit_val(in->l1, v) && lit_val(in->l2, v)) : (lit_val(in->l1, v) || lit_val(in->l2, v));
 	if (in->n1 & 1) { y = dnfNot(y); fy = !fy; }
 	V_ASSERT(eval(y, v) == fy, "dnf of (l1 op l2) [negated] evaluates like the formula");
+#ifdef LEVEL1
+	V_ASSERT(!dnfIsTrue(y) || fy, "dnfIsTrue only for formulas true under every valuation");
+	V_ASSERT(!dnfIsFalse(y) || !fy, "dnfIsFalse only for formulas false under every valuation");
+	if (dnfImplies(a, y)) V_ASSERT(!lit_val(in->l1, v) || fy, "dnfImplies(l1, y) true => l1 implies y");
+	if (dnfEqual(a, y))   V_ASSERT(lit_val(in->l1, v) == fy, "dnfEqual(l1, y) true => equivalent");
+	return;
+#endif
 	z = (in->o2 & 1) ? dnfAnd(y, c) : dnfOr(y, c);
 	fz = (in->o2 & 1) ? (fy && lit_val(in->l3, v)) : (fy || lit_val(in->l3, v));
 	if (in->n2 & 1) { z = dnfNot(z); fz = !fz; }
